@@ -254,7 +254,7 @@ pub fn small_scope() -> Vec<Case> {
             continue;
         }
         for len in 1..=4usize {
-            let pool: Vec<D> = if k.is_image() { atoms.iter().filter(|a| a.k != Placeholder).cloned().collect() } else { atoms.to_vec() };
+            let pool: Vec<D> = atoms.to_vec();
             for l in lists(&pool[..pool.len().min(if len == 4 { 3 } else { 5 })], len) {
                 let ok = if k == Neg { len == 1 } else if k.is_binary_ordered() || k.is_sym_statement() { len == 2 } else { true };
                 if !ok {
@@ -277,8 +277,30 @@ pub fn small_scope() -> Vec<Case> {
     out
 }
 
+/// C14 never prints the term, so image component lists may also hold placeholder atoms —
+/// including one at exactly the recorded index ((/, A, _, _) parses to such a value)
+fn sprinkle_placeholders(d: &D, picks: &[u8], at: &mut usize) -> D {
+    let mut out = d.clone();
+    out.kids = d.kids.iter().map(|k| sprinkle_placeholders(k, picks, at)).collect();
+    if out.k.is_image() {
+        for i in 0..out.kids.len() {
+            let b = if picks.is_empty() { 1 } else { picks[*at % picks.len()] };
+            *at += 1;
+            if b % 4 == 0 && out.kids[i].k.is_atom() {
+                out.kids[i] = D::placeholder();
+            }
+        }
+    }
+    out
+}
+
 pub fn strategy() -> BoxedStrategy<Case> {
-    (gen::term(gen::TermOpts::main(0)), 0u8..2).prop_map(|(d, how)| Case { d, how }).boxed()
+    (gen::term(gen::TermOpts::main(0)), 0u8..2, proptest::collection::vec(any::<u8>(), 0..8), any::<bool>())
+        .prop_map(|(d, how, picks, sprinkle)| {
+            let d = if sprinkle { sprinkle_placeholders(&d, &picks, &mut 0) } else { d };
+            Case { d, how }
+        })
+        .boxed()
 }
 
 pub fn strategy_lexical() -> BoxedStrategy<LCase> {
